@@ -573,6 +573,22 @@ pub fn run_c03(cfg: &Cfg) -> (Part, Value, bool) {
         let o = explore(cfg, &mut part, &seen, "closure F8x3 len<=20", roots, &spec, None, 60_000_000, Level::Full);
         bounds.push(json!({"subject": "Bvf<u8,3>", "mode": "closure restricted to len <= 20", "states": o.states, "closed": o.closed}));
     }
+    // closure restricted to short lengths for Bvd and Bv: every reachable (length <= L, value,
+    // capacity, storage mode) under the full alphabet incl. reserve / shrink_to_fit - unbounded
+    // histories for the capacity- and mode-management logic (word-boundary logic is not reached here)
+    for k in [K::D, K::A] {
+        let l = if q { 10 } else { 13 };
+        let pool = pool_small(&[(K::F8x1, 0), (K::F8x1, 1), (K::F8x1, 3), (K::D, 2), (K::A, 5), (K::F64x4, 4)]);
+        let mut roots = roots_of(&mut part, &seen, k, &Bits::new(), PROVS_ALL);
+        roots.extend(roots_of(&mut part, &seen, k, &Bits::from_u128(3, 0b101), PROVS_ALL));
+        let mut spec = spec_full(pool, l, Idx::All);
+        spec.inserts = !q;
+        spec.extend_bits = 1;
+        spec.nat_ops = vec![Nat::U8(1), Nat::U8(0xA5), Nat::U128(u128::MAX)];
+        let o = explore(cfg, &mut part, &seen, &format!("closure {} len<={}", k.name(), l), roots, &spec, None, 20_000_000, Level::Full);
+        bounds.push(json!({"subject": k.name(), "mode": format!("closure restricted to len <= {}", l), "states": o.states, "closed": o.closed,
+            "note": "states = (length, value, allocated words, inline/heap); reserve(k) for k in {0,1,63,64,65,200} and shrink_to_fit are in the alphabet"}));
+    }
     // depth mode: every other kind from boundary roots
     let depth = if q { 2 } else { 3 };
     let kinds: Vec<K> = ALL_KINDS.iter().copied().filter(|k| k.word() != 8).collect();
@@ -720,6 +736,22 @@ pub fn run_c18(cfg: &Cfg) -> (Part, Value, bool) {
         let nacts = alphabet(&spec, k, 129).len();
         let o = explore(cfg, &mut part, &seen, &format!("depth-{} {} capacity", depth, k.name()), roots, &spec, Some(depth), 30_000_000, Level::Lite);
         bounds.push(json!({"subject": k.name(), "mode": "depth", "depth": depth, "roots": nroots, "actions_per_state": nacts, "states": o.states}));
+    }
+    // closure restricted to short lengths: every reachable (length <= L, value, capacity, mode)
+    for k in [K::D, K::A] {
+        let l = if q { 8 } else { 11 };
+        let mut roots: Vec<Vo> = Vec::new();
+        for c in [0u16, 1, 64, 65, 129, 200] {
+            roots.extend(roots_of(&mut part, &seen, k, &Bits::new(), &[Prov::Cap(c)]));
+        }
+        roots.extend(roots_of(&mut part, &seen, k, &Bits::from_u128(3, 0b101), dyn_provs(k)));
+        let pool = pool_small(&[(K::F8x1, 0), (K::F8x1, 1), (K::F8x1, 3), (K::D, 2), (K::F64x4, 4)]);
+        let mut spec = spec_edits(pool, l, Idx::All, 1);
+        spec.inserts = false;
+        spec.capacity = true;
+        spec.bins = vec![BinOp::Add, BinOp::Or, BinOp::Xor];
+        let o = explore(cfg, &mut part, &seen, &format!("closure {} len<={} capacity", k.name(), l), roots, &spec, None, 20_000_000, Level::Lite);
+        bounds.push(json!({"subject": k.name(), "mode": format!("closure restricted to len <= {}", l), "states": o.states, "closed": o.closed}));
     }
     (part, json!({"explorations": bounds, "alphabet": "with_capacity (roots) reserve shrink_to_fit push pop set resize truncate sign_extend append prepend extend collect, op= with operands longer than the subject",
         "invariants": "len<=capacity in every state; reserve: capacity>=len+k; shrink_to_fit: capacity<=fresh(len).capacity(); bits unchanged; never panics"}), true)
